@@ -178,7 +178,7 @@ func init() {
 				return []string{"GORACE=halt_on_error=0 exitcode=0 log_path=" + filepath.Join(e.Scratch, "race", "r")}
 			},
 			ExtraFn:       func(e *Env) []string { return []string{"-racelog", filepath.Join(e.Scratch, "race", "r")} },
-			RequireProbes: []string{"op_render", "op_render-shared", "op_js", "op_compile", "op_parse", "op_with_catalogue", "runs_with_pomsg_bundle", "runs_with_obligatory_directives", "runs_with_logger", "sched_random", "sched_pct", "sched_coarse", "sched_rr"},
+			RequireProbes: []string{"op_render", "op_render-shared", "op_render-struct", "op_js", "op_compile", "op_parse", "op_with_catalogue", "runs_with_pomsg_bundle", "runs_with_obligatory_directives", "runs_with_logger", "sched_random", "sched_pct", "sched_coarse", "sched_rr"},
 		}
 	})
 }
